@@ -28,7 +28,7 @@ type storeDom struct {
 
 func init() { Register("store", func() Domain { return &storeDom{} }) }
 
-var storeElems = []string{`1`, `2`, `3`, `"a"`, `"b"`, `null`, `true`, `{"rid":"x.y"}`, `{"rid":"x.y","soft":true}`, `{"data":{"a":1}}`, `{"data":[1,2]}`, `"with space"`, `"q\"uote"`, `1.5`}
+var storeElems = []string{`1`, `2`, `3`, `"a"`, `"b"`, `null`, `true`, `{"rid":"x.y"}`, `{"rid":"x.y","soft":true}`, `{"rid":"x.~y!"}`, `{"rid":"~.!","soft":true}`, `{"data":{"a":1}}`, `{"data":[1,2]}`, `"with space"`, `"q\"uote"`, `1.5`}
 var storeKeys = []string{"a", "b", "c", "k.d", "e f"}
 
 func genColl(r *gen.R, maxn int, pool []string) []string {
